@@ -1,9 +1,12 @@
 """C08 — EUI text round-trips in every dialect; derived identifiers follow the standards.
 
 Ops (Driver/C08.lean): eui_rt ver dial v ; eui_parse addr version ; eui_acc ver v sep ;
-eui_iab v ; iab_split e strict ; eui_get dial v idx ; eui_set dial v idx val ;
-eui_derive ver v prefix ; eui_cmp ver1 v1 ver2 v2.
-Dialect token: built-in class name or D,ws,nw,<hex sep>,pad,U|L (user subclass)."""
+eui_iab ver v ; iab_split e strict ; eui_get dial v idx ; eui_set dial v idx val ;
+eui_derive ver v prefix ; eui_cmp ver1 v1 ver2 v2 ; eui_fmt ver v dial|-.
+Dialect token: built-in class name or D,ws,nw,<hex sep>,pad,U|L (user subclass).
+Every error path prints the exception class on both sides (`!` + common.errname / Err.tag): the
+classes are tied by correspondence; the oracle (the property names no classes) only asks for a
+rejection."""
 from common import Case, value_classes, rand_value, hexs, plist, tf, optint
 import common
 import platform_cases
@@ -21,7 +24,11 @@ RULE = ('eui_rt: structured values (boundaries, aligned+-1, all-decimal-digit he
         'mixed case) x version None/48/64/other, edit-distance-1 neighbours, decimal-integer strings, ints at the '
         'version boundaries; eui_acc: value-level accessors under a random dialect (the model is dialect-free); '
         'eui_get/eui_set: every index -nw-1..nw, slices, word values 0, max, max+1; eui_derive: eui64/modified/ipv6 '
-        'with aligned and unaligned prefixes; eui_cmp: equal / adjacent / cross-version pairs under different dialects. '
+        'with aligned and unaligned prefixes; eui_cmp: equal / adjacent / cross-version pairs under different dialects; '
+        'eui_iab: EUI-48 and EUI-64 receivers (IAB base OUI at bits 24..47 and at the EUI-64 OUI position 40..63, neighbours, '
+        'random); eui_fmt: format(dialect) for own-family, other-family and user dialects and format(None) under a random own '
+        'dialect; decimal-digit strings of every length 1..21 (bare-EUI lengths 11/12/16 included) around 2^48 / 2^64, with '
+        'and without a final newline; exception classes are printed on both sides for every error path. '
         'non-trivial = distinct case whose implementation output is not an error')
 
 # independent restatement of the built-in dialects: name -> (ver, word_size, num_words, sep, pad, upper)
@@ -43,6 +50,16 @@ USER64 = ['D,8,8,3a,2,U', 'D,16,4,2d,0,U', 'D,64,1,,16,L', 'D,32,2,2d,8,L',
           'D,8,8,,2,L', 'D,16,4,,4,U', 'D,32,2,,8,L']
 IABS = (0x0050c2, 0x40d855)          # IEEE IAB base OUIs
 MAXV = {48: (1 << 48) - 1, 64: (1 << 64) - 1}
+
+
+def known(c):
+    """C08-F16 (open): is_iab() / iab of an EUI-64 receiver look at bits 24.. / 12.. of the value
+    (the EUI-48 positions) instead of the EUI-64 OUI position: exactly the EUI-64 receivers for which
+    the two readings differ"""
+    a = c.args
+    if a and a[0] == 'iab' and a[1] == 64 and ((a[2] >> 24) in IABS or (a[2] >> 40) in IABS):
+        return 'C08-F16'
+    return None
 
 
 def dinfo(ver, d):
@@ -275,8 +292,8 @@ def generate(rng, tier):
                 v = rand_value(rng, ver)
                 idx = rng.choice(list(range(-nw - 1, nw + 1)) + [nw + 5, -nw - 7])
                 cases.append(Case('eui_get %s %d i;%d' % (d, v, idx), 'get/idx', ('get', ver, d, v, idx)))
-                a, b = (rng.choice([None] + list(range(-nw - 2, nw + 3))) for _ in range(2))
-                c = rng.choice([None, None, 1, 2, -1, -2, 3, 0])
+                a, b = (rng.choice([None] + list(range(-nw - 2, nw + 3)) + [100, -100, 1 << 70, -(1 << 70)]) for _ in range(2))
+                c = rng.choice([None, None, 1, 2, -1, -2, 3, -3, 0, nw, -nw, 1 << 65, -(1 << 65)])
                 cases.append(Case('eui_get %s %d s;%s;%s;%s' % (d, v, optint(a), optint(b), optint(c)), 'get/slice',
                                   ('get', ver, d, v, (a, b, c))))
                 idx = rng.choice(list(range(0, nw)) * 3 + [nw, -1, nw + 1])
@@ -293,6 +310,10 @@ def generate(rng, tier):
                 if rng.random() < 0.15:
                     version = rng.choice((112 - ver, 32, 0))
                     cases.append(Case('eui_parse %s %d' % (hexs(s), version), 'parse/otherver', ('parse', s, version)))
+                if rng.random() < 0.12:
+                    for t in (s + '\n', s + '\n\n', '\n' + s):
+                        version = rng.choice((None, ver, 112 - ver))
+                        cases.append(Case('eui_parse %s %s' % (hexs(t), optint(version)), 'parse/newline', ('parse', t, version)))
                 if rng.random() < 0.5:
                     t = mutate(rng, s)
                     version = rng.choice((None, None, ver, 112 - ver))
@@ -324,14 +345,54 @@ def generate(rng, tier):
             v2 = rng.choice((v1, v1, v1 + 1, v1 - 1, rand_value(rng, ver2))) & MAXV[ver2]
             d1, d2 = rng.choice(dialects(ver)), rng.choice(dialects(ver2))
             cases.append(Case('eui_cmp %d %d %d %d' % (ver, v1, ver2, v2), 'cmp', ('cmp', ver, d1, v1, ver2, d2, v2)))
-    # IAB
+    # IAB: EUI-48 receivers
     for _ in range(40 * mult):
         p = rng.choice(IABS + (IABS[0] + 1, IABS[1] - 1, rng.getrandbits(24)))
         v = (p << 24) | rand_value(rng, 24)
-        cases.append(Case('eui_iab %d' % v, 'iab', ('iab', v)))
+        cases.append(Case('eui_iab 48 %d' % v, 'iab/48', ('iab', 48, v)))
         e = rng.choice((v, v >> 12, v & ~0xfff, (v >> 12) + 1))
         strict = rng.random() < 0.5
         cases.append(Case('iab_split %d %s' % (e, tf(strict)), 'iab_split', ('iab_split', e, strict)))
+    # IAB: EUI-64 receivers (a handful inside the class of the open finding C08-F16, the rest outside it)
+    for p in IABS:
+        cases.append(Case('eui_iab 64 %d' % ((p << 40) | rng.getrandbits(40)), 'iab/64-oui', ('iab', 64, (p << 40) | rng.getrandbits(40))))
+        cases.append(Case('eui_iab 64 %d' % ((p << 24) | rng.getrandbits(24)), 'iab/64-low', ('iab', 64, (p << 24) | rng.getrandbits(24))))
+        m48 = (p << 24) | rng.getrandbits(24)
+        e64 = ((m48 >> 24) << 40) | (0xfffe << 24) | (m48 & 0xffffff)
+        cases.append(Case('eui_iab 64 %d' % e64, 'iab/64-oui', ('iab', 64, e64)))
+    for _ in range(20 * mult):
+        p = rng.choice((IABS[0] + 1, IABS[1] - 1, IABS[0] ^ 0x800000, rng.getrandbits(24), 0))
+        v = rng.choice(((p << 40) | rng.getrandbits(40), (p << 24) | rng.getrandbits(24), rand_value(rng, 64)))
+        if (v >> 24) in IABS or (v >> 40) in IABS:
+            continue
+        cases.append(Case('eui_iab 64 %d' % v, 'iab/64', ('iab', 64, v)))
+    # format(dialect): own family, other family (wider / narrower), user dialects, None under a random own dialect
+    for ver in (48, 64):
+        for _ in range(30 * mult):
+            v = rng.choice(_vals(rng, ver, 1))
+            own = rng.choice(dialects(ver))
+            k = rng.random()
+            if k < 0.25:
+                arg, aver = None, ver
+            elif k < 0.8:
+                arg, aver = rng.choice(dialects(ver)), ver
+            else:
+                arg, aver = rng.choice(dialects(112 - ver)), 112 - ver
+            cases.append(Case('eui_fmt %d %d %s' % (ver, v, arg or '-'), 'fmt/%s' % ('none' if arg is None else 'own' if aver == ver else 'other'),
+                              ('fmt', ver, own, v, arg, aver)))
+    # decimal-digit strings of every length (11 / 12 / 16 digits are bare EUIs, the rest go to int())
+    for n in range(1, 22):
+        for _ in range(2 * mult):
+            t = ''.join(rng.choice('0123456789') for _ in range(n))
+            if rng.random() < 0.3:          # leading zeros: same length, smaller value
+                k = rng.randrange(1, n + 1)
+                t = '0' * k + t[k:]
+            for version in (None, None, rng.choice((48, 64))):
+                u = t + rng.choice(('', '', '', '\n'))
+                cases.append(Case('eui_parse %s %s' % (hexs(u), optint(version)), 'parse/decimal', ('parse', u, version)))
+    for n in (MAXV[48] - 1, MAXV[48], MAXV[48] + 1, MAXV[64] - 1, MAXV[64], MAXV[64] + 1, 10 ** 20):
+        for t in (str(n), str(n) + '\n', '0' * 3 + str(n), str(n).zfill(22)):
+            cases.append(Case('eui_parse %s -' % hexs(t), 'parse/decimal', ('parse', t, None)))
     # oracle-only: non-ASCII digits go through int() in the real code
     for s in ('١٢', '１２-00-00-00-00-00', '00-1B-77-49-54-F٠'):
         cases.append(Case(None, 'parse/nonascii', ('parse', s, None)))
@@ -349,8 +410,8 @@ def _vv(e):
 def _try(f, show=str):
     try:
         return show(f())
-    except Exception:
-        return '!'
+    except Exception as e:
+        return '!' + common.errname(e)
 
 
 def impl(c):
@@ -379,8 +440,15 @@ def impl(c):
                 return 'NR'
         return ' '.join([_try(lambda: e.words, fwords), _try(lambda: e.packed, fbytes), _try(lambda: e.bits(sep), hexs),
                          _try(lambda: e.bin, hexs), _try(lambda: e.ei, hexs), _try(oui)])
+    if a[0] == 'fmt':
+        _, ver, own, v, arg, aver = a
+        e = common.make_eui(v, ver, dialect_obj(ver, own))
+        if arg is None:
+            r1, r2 = _try(lambda: e.format(), hexs), _try(lambda: e.format(None), hexs)
+            return r1 if r1 == r2 else '?format()!=format(None)'
+        return _try(lambda: e.format(dialect_obj(aver, arg)), hexs)
     if a[0] == 'iab':
-        e = EUI(a[1], version=48)
+        e = EUI(a[2], version=a[1])
 
         def iab():
             try:
@@ -402,8 +470,8 @@ def impl(c):
         e = common.make_eui(v, ver, dialect_obj(ver, d))
         try:
             e[idx] = val
-        except Exception:
-            return '!' if int(e) == v else '?changed-on-error'
+        except Exception as ex:
+            return '!' + common.errname(ex) if int(e) == v else '?changed-on-error'
         return str(int(e)) if e.version == ver else '?version'
     if a[0] == 'derive':
         _, ver, v, pfx, dd = a
@@ -433,10 +501,16 @@ def equivalent(c, got, model):
 
 # ------------------------------------------------------------------ oracle
 
+def _norm(got):
+    """the property names no exception classes: every rejection reads '!' for the oracle"""
+    return ' '.join('!' if f.startswith('!') else f for f in got.split(' '))
+
+
 def oracle(c, got):
     a = c.args
     if c.platform:
         return None
+    got = _norm(got)
     if a[0] == 'rt':
         _, ver, d, v = a
         s = ref_print(ver, d, v)
@@ -464,11 +538,18 @@ def oracle(c, got):
         if len(g) != 6 or any(x != y and not (i == 5 and x == 'NR') for i, (x, y) in enumerate(zip(g, exp))):
             return 'accessors under dialect %s gave %s, expected %s' % (d, got, ' '.join(exp))
         return None
+    if a[0] == 'fmt':
+        _, ver, own, v, arg, aver = a
+        d = arg if arg is not None else ('mac_eui48' if ver == 48 else 'eui64_base')
+        ws, nw = dinfo(aver, d)[:2]
+        exp = hexs(ref_print(aver, d, v)) if v < (1 << (ws * nw)) else '!'
+        return None if got == exp else 'format(%s) under own dialect %s gave %s, expected %s' % (arg, own, got, exp)
     if a[0] == 'iab':
-        v = a[1]
-        isiab = (v >> 24) in IABS
+        ver, v = a[1], a[2]
+        # standard positions: the OUI is the top 24 bits of the identifier, the IAB its top 36 bits
+        isiab = (v >> (ver - 24)) in IABS
         g = got.split(' ')
-        exp = [tf(isiab), str(v >> 12) if isiab else '-']
+        exp = [tf(isiab), str(v >> (ver - 36)) if isiab else '-']
         if len(g) != 2 or g[0] != exp[0] or (g[1] != exp[1] and not (isiab and g[1] == 'NR')):
             return 'is_iab/iab gave %s, expected %s' % (got, ' '.join(exp))
         return None
@@ -527,7 +608,9 @@ def repro(c):
     if a[0] == 'acc':
         return 'e = EUI(%d, version=%d, dialect=<%s>); e.words, e.packed, e.bits(%r), e.bin, e.ei, e.oui' % (a[3], a[1], a[2], a[4])
     if a[0] == 'iab':
-        return 'e = EUI(%d, version=48); e.is_iab(), e.iab' % a[1]
+        return 'e = EUI(%d, version=%d); e.is_iab(), e.iab' % (a[2], a[1])
+    if a[0] == 'fmt':
+        return 'EUI(%d, version=%d, dialect=<%s>).format(%s)' % (a[3], a[1], a[2], '<%s>' % a[4] if a[4] else '')
     if a[0] == 'iab_split':
         return 'IAB.split_iab_mac(%d, strict=%r)' % (a[1], a[2])
     if a[0] == 'get':
